@@ -408,21 +408,21 @@ def judge(ctx, case):
                 return
             ctx.op('route:' + r['family'], 'ok' if kind == 'ok' else type(res).__name__)
             if kind != 'ok':
-                ctx.mismatch(f'C08|create|route={fk}|{mode}|unexpected-exc:{type(res).__name__}', short(case), f'{res!s:.120}')
+                ctx.mismatch(f'C08|create|route={fk}|{mode}|unexpected-exc:{type(res).__name__}', case, f'{res!s:.120}')
                 return
             s, intended = res
             if type(s) is not cls:
-                ctx.mismatch(f'C08|create|route={fk}|{mode}|wrong-class', short(case), type(s).__name__)
+                ctx.mismatch(f'C08|create|route={fk}|{mode}|wrong-class', case, type(s).__name__)
                 return
             got_bits = call_name(lambda: B(s))
             if got_bits[0] != 'ok':
-                ctx.mismatch(f'C08|create|route={fk}|{mode}|bin-unreadable', short(case), str(got_bits))
+                ctx.mismatch(f'C08|create|route={fk}|{mode}|bin-unreadable', case, str(got_bits))
                 return
             b = got_bits[1]
             if not lsb0 or r['family'] not in ('BytesIO', 'file', 'filehandle', 'slice'):
                 # the selected window is unambiguous (under lsb0 only for routes without an offset window)
                 if b != intended:
-                    ctx.mismatch(f'C08|create|route={fk}|{mode}|window-bits', short(case), f'got {b[:80]} intended {intended[:80]}')
+                    ctx.mismatch(f'C08|create|route={fk}|{mode}|window-bits', case, f'got {b[:80]} intended {intended[:80]}')
                     return
             twin = mk(cls, b)
             ref = battery(twin, b)
@@ -431,7 +431,7 @@ def judge(ctx, case):
                 if got[k] == ref[k]:
                     ctx.ok((fk, case['cls'], k, mode), len(b) > 0)
                 else:
-                    ctx.mismatch(f'C08|obs|route={fk}|differs', short(case), f'{k} {mode} {case["cls"]}: route {str(got[k])[:90]} twin {str(ref[k])[:90]}')
+                    ctx.mismatch(f'C08|obs|route={fk}|differs', case, f'{k} {mode} {case["cls"]}: route {str(got[k])[:90]} twin {str(ref[k])[:90]}')
             if case['cls'] in util.MUTABLE:
                 L = len(b)
                 for name in case.get('mutators') or list(MUTATORS):
@@ -449,7 +449,7 @@ def judge(ctx, case):
                     if (ro, B(o)) == (rt, B(t)):
                         ctx.ok((fk, case['cls'], 'mut:' + name, mode), L > 0)
                     else:
-                        ctx.mismatch(f'C08|mut|route={fk}|differs', short(case),
+                        ctx.mismatch(f'C08|mut|route={fk}|differs', case,
                                      f'{name} {mode} {case["cls"]}: route {ro} {B(o)[:60]} twin {rt} {B(t)[:60]}')
             ctx.state(fk, case['cls'], len(b), mode)
     finally:
